@@ -1114,12 +1114,10 @@ pub fn check_c18(_case: &Case, h: &History) -> Vec<Violation> {
                 let ok: Vec<u8> = match reads[0] {
                     LineRes::Eof => vec![0],
                     LineRes::Ok(t) => {
-                        let mut a = vec![t.as_bytes()[0]];
-                        let content = t.trim_end_matches(|c| c == '\n' || c == '\r');
-                        if content.is_empty() {
-                            a.push(0);
-                        }
-                        a
+                        // the first byte of the line as it was read, its line end included: for an
+                        // empty line that is the line-end byte itself (0 is what end of input gives,
+                        // and a program must be able to tell the two apart)
+                        vec![t.as_bytes()[0]]
                     }
                     LineRes::Err(k) => {
                         // a failed read: 0 or AL unchanged; when the bytes of a non-UTF-8 line are
